@@ -174,7 +174,64 @@ def observe(model, pool, vec_hex, unit_hex, pseed=0):
         except BaseException:  # noqa
             res.append(False)
     out["paths_resolve"] = all(res)
+    out["resolve"] = resolutions(model, idmap)
+    if "ok" in out["inst"]:
+        live = guarded(lambda: model.instance_from_vector(vec))
+        if "ok" in live:
+            out["acc"] = [[list(map(str, p)), access(live["ok"], p, True), access(live["ok"], p, False)]
+                          for p in model.unique_prior_paths]
     return out
+
+
+def resolutions(model, idmap):
+    """For every advertised (path, prior): the pool index of what object_for_path finds at the path given as the
+    advertised tuple, at the same path with every component turned into a str (a path read back from text), and by
+    walking the model with collection[name] / getattr;
+    -1: not a prior of the pool, -2: raised."""
+    from autofit.mapper.prior.abstract import Prior
+    out = []
+    for path, prior in model.path_priors_tuples:
+        row = [list(map(str, path)), idmap.get(prior.id, -1)]
+        for pa in (tuple(path), tuple(map(str, path))):
+            try:
+                obj = model.object_for_path(pa)
+                row.append(idmap.get(obj.id, -1) if isinstance(obj, Prior) else -1)
+            except BaseException:  # noqa
+                row.append(-2)
+        # ... and walking the model itself by item access: collection[name] on collections, getattr elsewhere
+        try:
+            obj = model
+            for name in path:
+                obj = obj[str(name)] if isinstance(obj, af.Collection) else getattr(obj, str(name))
+            row.append(idmap.get(obj.id, -1) if isinstance(obj, Prior) else -1)
+        except BaseException:  # noqa
+            row.append(-2)
+        out.append(row)
+    return out
+
+
+def access(instance, path, by_item):
+    """The float a user finds at an advertised path of a built instance through the public accessors: collections by
+    instance[name] (by_item) or getattr, objects by getattr, tuple values by the index in the member name. None when
+    the path is not addressable that way."""
+    from autofit.mapper.model import ModelInstance
+    cur = instance
+    try:
+        for name in path:
+            if isinstance(cur, ModelInstance):
+                cur = cur[name] if by_item else getattr(cur, name)
+            elif isinstance(cur, tuple):
+                suffix = str(name).rsplit("_", 1)[-1]
+                cur = cur[int(suffix)]
+            elif isinstance(cur, (float, int)) or type(cur).__name__ == "ndarray":
+                return None
+            else:
+                cur = getattr(cur, name)
+    except BaseException:  # noqa
+        return None
+    if isinstance(cur, bool) or not isinstance(cur, (float, int)):
+        return None
+    return hexf(float(cur))
 
 
 def main():
